@@ -25,6 +25,7 @@ import IocProofs.Lemmas.SemRefresh
 import IocProofs.Lemmas.M2Lookups
 import IocProofs.Lemmas.SemFacAccess
 import IocProofs.Lemmas.SemMeta
+import IocProofs.Lemmas.SemUnmarshall
 namespace Ioc.C02
 open Ioc Ioc.M2
 
@@ -292,5 +293,11 @@ theorem C02_code_SetProperties_keeps_all (idOf nameOf : Nat → String) (isComp 
     Go.run (Sem.metaPrims idOf nameOf isComp) Progs.meta_SetProperties [.list (ps.map (fun i => Go.Val.ref i 20))] w =
       some (.tuple [], { w with comp := w.comp ++ ps.filter isComp, conf := w.conf ++ ps.filter (fun i => !isComp i) }) :=
   Sem.metaSetProperties_sem idOf nameOf isComp ps w
+
+/-- "or left empty when optional": a point is optional exactly when its `required` argument holds the value "false" among its
+    values (IsRequired, regenerated, `C09_code_IsRequired`) -/
+theorem C02_code_IsRequired (has : Sem.AM → String → List String → Bool) (fmtKey : String → String) (w : Sem.PW) :
+    Go.run (Sem.pmPrims has fmtKey) Progs.prop_IsRequired [] w = some (.bool (!(has w.args "required" ["false"])), w) :=
+  Sem.isRequired_sem has fmtKey w
 
 end Ioc.C02
